@@ -1,6 +1,8 @@
 import Driver.Util
 import KonstVerif.Model.OptRes
 import KonstVerif.Spec.OptRes
+import KonstVerif.Model.OptResEval
+import KonstVerif.Spec.OptResEval
 /-
   C19 requests (printed by the generated Rust programs of vlib/progs/c19.py):
     opt.<macro> <none|some:v|some:none|some:some:v> <form> [<extra>]  -> <value>|calls:<n>
@@ -17,7 +19,7 @@ open Konst.OptRes (Ev)
 
 def owns (op : String) : Bool :=
   op.startsWith "opt." || op.startsWith "res." || op.startsWith "try." || op.startsWith "rebind." ||
-  op.startsWith "mm."
+  op.startsWith "mm." || op.startsWith "ev." || op.startsWith "evo." || op.startsWith "hy."
 
 /-! closure library (same as PRELUDE in vlib/progs/c19.py) -/
 def fb0 : Unit → Int := fun _ => 7
@@ -419,12 +421,259 @@ def handleMm (mac : String) (args : List String) : Option (String × String) :=
     r.map fun (m, s) => (toString m.2, toString s.2)
   | _ => none
 
-def handle (op : String) (args : List String) : Option (String × String) :=
+/-! ## ev. / evo. — argument expressions with side effects (vlib/progs/c19_hyg.py)
+
+  `ev.<fam>.<macro>.<form>.<shape> <stream1> [<stream2>]` -> `<value>|o<k>d<k>c<k>n<k>` (min/max: `<id>|a<k>b<k>`)
+  `evo.<same>`                                            -> the event log (order), `-` when empty
+  Streams are `/`-separated values; the k-th evaluation of an argument expression yields the k-th value.
+  Events: o d (the two argument expressions), c (closure body / function called), f (a function-valued argument
+  expression evaluated), a b (min/max arguments), k q (key function applied to an argument with an odd / even id). -/
+section Ev
+open Konst.Trace
+open Konst.OptRes (Eval.optUnwrapOr)
+
+def splitStream (s : String) : List String := s.splitOn "/"
+
+def parsePair (s : String) : Option (Except Int (List Int)) :=
+  if s.startsWith "ok:" then (((s.drop 3).toString.splitOn ",").mapM parseInt).map .ok
+  else if s.startsWith "err:" then (parseInt (s.drop 4).toString).map .error
+  else none
+
+def cntc (c : Char) (l : Log) : Nat := l.count c
+def showLog (l : Log) : String := if l.isEmpty then "-" else String.ofList l
+
+/-- in-scope rendering: counts of o, d, c; `n` = the closure's captured counter (closure-literal forms only) -/
+def showEv (closureLit : Bool) (v : String) (l : Log) : String :=
+  s!"{v}|o{cntc 'o' l}d{cntc 'd' l}c{cntc 'c' l}n{if closureLit then cntc 'c' l else 0}"
+
+/-- the function-valued argument of form `cl` / `fn` (no effect of its own) or `fx` (logs `f`) -/
+def fxOf {φ : Type} (form : String) (f : φ) : Option (Tr φ) :=
+  if form = "cl" ∨ form = "fn" then some (quiet f)
+  else if form = "fx" then some (fun l => (f, l ++ ['f']))
+  else none
+
+/-- model and spec computations of one option::/result:: form, rendered -/
+def evPair {γ : Type} (sh : γ → String) (lit : Bool) (m s : Tr γ) : (String × Log) × (String × Log) :=
+  let a := m.run
+  let b := s.run
+  ((showEv lit (sh a.1) a.2, a.2), (showEv lit (sh b.1) b.2, b.2))
+
+def evOptRes (fam mac form : String) (args : List String) : Option ((String × Log) × (String × Log)) := do
+  let lit := form = "cl"
+  let ds : Tr Int ← match args with
+    | [_, s2] => do let v ← (splitStream s2).mapM parseInt; some (stream 'd' v 0)
+    | [_] => some (quiet 0)
+    | _ => none
+  let s1 ← args.head?
+  let unitFn {β : Type} (f : Unit → β) : Unit → Tr β := logged 'c' f
+  if fam = "opt" ∧ mac = "flatten" then
+    let v ← (splitStream s1).mapM parseOptOpt
+    let e := stream 'o' v none
+    some (evPair fo lit (OptRes.Eval.optFlatten e) (Spec.OptResEval.call1 e fun o => pure (Spec.OptRes.optFlatten o)))
+  else if fam = "opt" then
+    let v ← (splitStream s1).mapM parseOpt
+    let e : Tr (Option Int) := stream 'o' v none
+    match mac with
+    | "unwrap_or" => some (evPair fi lit (OptRes.Eval.optUnwrapOr e ds)
+        (Spec.OptResEval.call2 e ds fun o d => pure (Spec.OptRes.optUnwrapOr o d)))
+    | "ok_or" => some (evPair fr lit (OptRes.Eval.optOkOr e ds)
+        (Spec.OptResEval.call2 e ds fun o d => pure (Spec.OptRes.optOkOr o d)))
+    | "unwrap_or_else" => do
+      let fx ← fxOf form (unitFn fb0)
+      some (evPair fi lit (OptRes.Eval.optUnwrapOrElse e fx) (Spec.OptResEval.call2 e fx Spec.OptResEval.unwrapOrElseM))
+    | "ok_or_else" => do
+      let fx ← fxOf form (unitFn fbe0)
+      some (evPair fr lit (OptRes.Eval.optOkOrElse e fx) (Spec.OptResEval.call2 e fx Spec.OptResEval.okOrElseM))
+    | "map" => do
+      let fx ← fxOf form (logged 'c' m1)
+      some (evPair fo lit (OptRes.Eval.optMap e fx) (Spec.OptResEval.call2 e fx Spec.OptResEval.mapM))
+    | "and_then" => do
+      let fx ← fxOf form (logged 'c' at1)
+      some (evPair fo lit (OptRes.Eval.optAndThen e fx) (Spec.OptResEval.call2 e fx Spec.OptResEval.andThenM))
+    | "or_else" => do
+      let fx ← fxOf form (unitFn fbs0)
+      some (evPair fo lit (OptRes.Eval.optOrElse e fx) (Spec.OptResEval.call2 e fx Spec.OptResEval.orElseM))
+    | "filter" => do
+      let fx ← fxOf form (logged 'c' pred)
+      some (evPair fo lit (OptRes.Eval.optFilter e fx) (Spec.OptResEval.call2 e fx Spec.OptResEval.filterM))
+    | "copied" => some (evPair fo lit (OptRes.Eval.optCopied e) (Spec.OptResEval.call1 e fun o => pure (Spec.OptRes.optCopied o)))
+    | _ => none
+  else if fam = "res" then
+    let v ← (splitStream s1).mapM parseRes
+    let e : Tr (Except Int Int) := stream 'o' v (.ok 0)
+    match mac with
+    | "unwrap_or" => some (evPair fi lit (OptRes.Eval.resUnwrapOr e ds)
+        (Spec.OptResEval.call2 e ds fun r d => pure (Spec.OptRes.resUnwrapOr r d)))
+    | "unwrap_or_else" => do
+      let fx ← fxOf form (logged 'c' e1)
+      some (evPair fi lit (OptRes.Eval.resUnwrapOrElse e fx) (Spec.OptResEval.call2 e fx Spec.OptResEval.resUnwrapOrElseM))
+    | "unwrap_err_or_else" => do
+      let fx ← fxOf form (logged 'c' e1)
+      some (evPair fi lit (OptRes.Eval.resUnwrapErrOrElse e fx) (Spec.OptResEval.call2 e fx Spec.OptResEval.resUnwrapErrOrElseM))
+    | "ok" => some (evPair fo lit (OptRes.Eval.resOk e) (Spec.OptResEval.call1 e fun r => pure (Spec.OptRes.resOk r)))
+    | "err" => some (evPair fo lit (OptRes.Eval.resErr e) (Spec.OptResEval.call1 e fun r => pure (Spec.OptRes.resErr r)))
+    | "map" => do
+      let fx ← fxOf form (logged 'c' m1)
+      some (evPair fr lit (OptRes.Eval.resMap e fx) (Spec.OptResEval.call2 e fx Spec.OptResEval.resMapM))
+    | "map_err" => do
+      let fx ← fxOf form (logged 'c' e1)
+      some (evPair fr lit (OptRes.Eval.resMapErr e fx) (Spec.OptResEval.call2 e fx Spec.OptResEval.resMapErrM))
+    | "and_then" => do
+      let fx ← fxOf form (logged 'c' rat1)
+      some (evPair fr lit (OptRes.Eval.resAndThen e fx) (Spec.OptResEval.call2 e fx Spec.OptResEval.resAndThenM))
+    | "or_else" => do
+      let fx ← fxOf form (logged 'c' roe1)
+      some (evPair fr lit (OptRes.Eval.resOrElse e fx) (Spec.OptResEval.call2 e fx Spec.OptResEval.resOrElseM))
+    | _ => none
+  else if fam = "try" then
+    let k : Int → Except Int Int := fun v => .ok v
+    match mac, form with
+    | "try_", "plain" => do
+      let v ← (splitStream s1).mapM parseRes
+      let e : Tr (Except Int Int) := stream 'o' v (.ok 0)
+      some (evPair id false (do let f ← OptRes.Eval.try_ e; pure (showFlowRes f))
+        (Spec.OptResEval.call1 e fun r => pure (showRetRes (Spec.OptRes.questionRes r k))))
+    | "try_", "me" => do
+      let v ← (splitStream s1).mapM parseRes
+      let e : Tr (Except Int Int) := stream 'o' v (.ok 0)
+      some (evPair id true (do let f ← OptRes.Eval.tryMapErr e (logged 'c' e1); pure (showFlowRes f))
+        (Spec.OptResEval.call2 e (quiet (logged 'c' e1)) fun r f => do
+          let r' ← Spec.OptResEval.resMapErrM r f
+          pure (showRetRes (Spec.OptRes.questionRes r' k))))
+    | "try_opt", "plain" => do
+      let v ← (splitStream s1).mapM parseOpt
+      let e : Tr (Option Int) := stream 'o' v none
+      let shM : OptRes.Flow (Option Int) Int → String := fun f => match f with
+        | .ret r => "ret:" ++ fo r
+        | .value v => s!"val:{v}"
+      let shS : Option Int → String := fun o => match o with
+        | some v => s!"val:{v}"
+        | none => "ret:none"
+      some (evPair id false (do let f ← OptRes.Eval.tryOpt e; pure (shM f))
+        (Spec.OptResEval.call1 e fun o => pure (shS (Spec.OptRes.questionOpt o fun v => some v))))
+    | _, _ => none
+  else if fam = "rebind" then
+    let v ← (splitStream s1).mapM parsePair
+    let e : Tr (Except Int (List Int)) := stream 'o' v (.error 0)
+    let u : OptRes.UserPat := ⟨false, [.place, .letP]⟩
+    let shOut : OptRes.RebindOut → String := fun o => match o with
+      | .reject => "reject"
+      | .ret e => s!"ret:{e}"
+      | .skip => "skip"
+      | .ok ws => "ok:" ++ ",".intercalate (ws.map fun w => showVal w.2)
+    let isTry ← if mac = "try_rebind" then some true else if mac = "rebind_if_ok" then some false else none
+    let specOut : Except Int (List Int) → String := fun r => match r with
+      | .ok vs => "ok:" ++ ",".intercalate (vs.map toString)
+      | .error e => if isTry then s!"ret:{e}" else "skip"
+    some (evPair id false
+      (do let o ← (if isTry then OptRes.Eval.tryRebind u 2 false e else OptRes.Eval.rebindIfOk u 2 false e); pure (shOut o))
+      (Spec.OptResEval.call1 e fun r => pure (specOut r)))
+  else none
+
+def kqOf (x : Int × Nat) : Char := if x.2 % 2 = 1 then 'k' else 'q'
+
+/-- min/max: (model value+log, spec value+log, is the ORDER of the key applications documented?) -/
+def evMm (mac form : String) (args : List String) : Option (((Int × Nat) × Log) × ((Int × Nat) × Log) × Bool) := do
+  let (sa, sb) ← match args with | [a, b] => some (a, b) | _ => none
+  let va ← (splitStream sa).mapM parseKeyed
+  let vb ← (splitStream sb).mapM parseKeyed
+  let a : Tr (Int × Nat) := stream 'a' va (0, 0)
+  let b : Tr (Int × Nat) := stream 'b' vb (0, 0)
+  let cmpV : (Int × Nat) → (Int × Nat) → Ordering := fun x y => compare x.1 y.1
+  let cmpT : (Int × Nat) → (Int × Nat) → Tr Ordering := fun x y l => (compare x.1 y.1, l ++ ['c'])
+  let keyT : (Int × Nat) → Tr Int := fun x l => (x.1, l ++ [kqOf x])
+  let cmpK : Int → Int → Ordering := compare
+  match mac, form with
+  | "min", "cc" => some ((OptRes.Eval.min cmpV a b).run,
+      (Spec.OptResEval.call2 a b fun x y => pure (Spec.OptRes.minBy cmpV x y)).run, true)
+  | "max", "cc" => some ((OptRes.Eval.max cmpV a b).run,
+      (Spec.OptResEval.call2 a b fun x y => pure (Spec.OptRes.maxBy cmpV x y)).run, true)
+  | "min_by", _ => do
+    let fx ← fxOf form cmpT
+    let m := if form = "cl" then OptRes.Eval.minBy a b cmpT else OptRes.Eval.minByFn a b fx
+    some (m.run, (Spec.OptResEval.call3 a b fx Spec.OptResEval.minByM).run, true)
+  | "max_by", _ => do
+    let fx ← fxOf form cmpT
+    let m := if form = "cl" then OptRes.Eval.maxBy a b cmpT else OptRes.Eval.maxByFn a b fx
+    some (m.run, (Spec.OptResEval.call3 a b fx Spec.OptResEval.maxByM).run, true)
+  | "min_by_key", _ => do
+    let fx ← fxOf form keyT
+    let m := if form = "cl" then OptRes.Eval.minByKey cmpK a b keyT else OptRes.Eval.minByKeyFn cmpK a b fx
+    some (m.run, (Spec.OptResEval.call3 a b fx (Spec.OptResEval.minByKeyM cmpK)).run, false)
+  | "max_by_key", _ => do
+    let fx ← fxOf form keyT
+    let m := if form = "cl" then OptRes.Eval.maxByKey cmpK a b keyT else OptRes.Eval.maxByKeyFn cmpK a b fx
+    some (m.run, (Spec.OptResEval.call3 a b fx (Spec.OptResEval.maxByKeyM cmpK)).run, false)
+  | _, _ => none
+
+def handleEv (order : Bool) (path : String) (args : List String) : Option (String × String) :=
+  match path.splitOn "." with
+  | [fam, mac, form, shape] =>
+    if shape ≠ "se" ∧ shape ≠ "sb" then none
+    else if fam = "mm" then do
+      let (m, s, orderDocumented) ← evMm mac form args
+      if order then some (showLog m.2, if orderDocumented then showLog s.2 else "?")
+      else
+        let sh : (Int × Nat) × Log → String := fun r => s!"{r.1.2}|a{cntc 'a' r.2}b{cntc 'b' r.2}"
+        some (sh m, sh s)
+    else do
+      let (m, s) ← evOptRes fam mac form args
+      if order then some (showLog m.2, showLog s.2) else some (m.1, s.1)
+  | _ => none
+end Ev
+
+/-! ## hy. — positions / names / caller items: `hy.<tag> <base request>` answers what the base request answers,
+    except where a caller item collides with an identifier pattern of the expansion (`OptRes.Eval.verdict`) -/
+
+/-- `..|calls:n` -> `..|calls:-` (const contexts have no call counter) -/
+def dropCalls (s : String) : String :=
+  match s.splitOn "|calls:" with
+  | [v, _] => v ++ "|calls:-"
+  | _ => s
+
+def parseDecl (s : String) : Option OptRes.Eval.Decl :=
+  match s with
+  | "const" => some .const_
+  | "static" => some .static_
+  | "ustruct" => some .unitStruct
+  | "fn" => some .fn_
+  | "var" => some .local_
+  | _ => none
+
+def handleHy (base : String → List String → Option (String × String)) (tag : String) (args : List String) :
+    Option (String × String) :=
+  match args with
+  | bop :: rest => do
+    let (m, s) ← base bop rest
+    if tag = "kfn" ∨ tag = "kit" then some (dropCalls m, dropCalls s)
+    else if tag = "tc" ∧ !OptRes.Eval.trailingCommaOk bop then some ("reject", s)
+    else if tag.startsWith "ret." then some ("?", "?")            -- documented, not modelled
+    else if tag.startsWith "syn." ∨ tag.startsWith "fnx." then some ("?", s)   -- the macro matchers are not modelled
+    else if tag.startsWith "item." then
+      match tag.splitOn "." with
+      | [_, d, name] => do
+        let decl ← parseDecl d
+        -- the arm: the form token of the base request (opt/res/try: after the value; mm: first; rebind: none)
+        let form := if bop.startsWith "mm." then rest.head?.getD "" else if bop.startsWith "rebind." then "" else (rest.drop 1).head?.getD ""
+        match OptRes.Eval.verdict bop form decl name with
+        | .transparent => some (m, s)
+        | .reject => some ("reject", s)
+      | _ => none
+    else some (m, s)
+  | [] => none
+
+def handleBase (op : String) (args : List String) : Option (String × String) :=
   if op.startsWith "opt." then handleOpt (op.drop 4).toString args
   else if op.startsWith "res." then handleRes (op.drop 4).toString args
   else if op.startsWith "try." then handleTry (op.drop 4).toString args
   else if op.startsWith "rebind." then handleRebind (op.drop 7).toString args
   else if op.startsWith "mm." then handleMm (op.drop 3).toString args
   else none
+
+def handle (op : String) (args : List String) : Option (String × String) :=
+  if op.startsWith "ev." then handleEv false (op.drop 3).toString args
+  else if op.startsWith "evo." then handleEv true (op.drop 4).toString args
+  else if op.startsWith "hy." then handleHy handleBase (op.drop 3).toString args
+  else handleBase op args
 
 end Driver.C19
